@@ -45,6 +45,7 @@ TAGS = {
     14: 'remove_covariate_effect(add_covariate_effect(M)) is not M',
     15: 'centring statistic is not the median of per-individual medians / mean of means of the dataset',
     16: 'categorical effect is not 1 at the most common level',
+    17: 'categorical effect at a non-reference level is not the documented one (cat: 1 + theta, cat2: theta)',
     21: 'add_iiv: parameter is not the documented function of the original expression and eta',
     22: 'add_iiv (add/prop/exp*) changes the model at eta = 0',
     23: 'add_iiv exp with operation + changes the model at eta = 0',
@@ -931,6 +932,11 @@ def pheno_cov_specs(full):
                 out.append({'kind': 'cov', 'model': 'pheno', 'param': P, 'cov': 'APGR', 'effect': eff, 'op': op,
                             'groups': first})
                 first = False
+    # categorical effects on covariates with exactly two levels (FA1, FA2: 0/1) — one theta, no index
+    for P, cov in ([('CL', 'FA1'), ('VC', 'FA2'), ('S1', 'FA1')] if full else [('CL', 'FA1'), ('VC', 'FA2')]):
+        for eff in ['cat', 'cat2']:
+            for op in (['*', '+'] if full else ['*']):
+                out.append({'kind': 'cov', 'model': 'pheno', 'param': P, 'cov': cov, 'effect': eff, 'op': op})
     # WGT after removing the built-in weight effects, and nested on top of them
     prep = [['remove_covariate_effect', 'CL', 'WGT'], ['remove_covariate_effect', 'VC', 'WGT']]
     first = True
@@ -1213,6 +1219,7 @@ def all_specs(ctx):
 
 
 # ------------------------------------------------------------------ running and classification
+FALLBACK_PRELUDE = 'Definition gen_templates : templates := doc_templates.\n'
 IMPORTS = 'Base.PyData Base.Expr Base.Interp Base.Stmts C09.Model C09.Check'
 
 
@@ -1358,7 +1365,11 @@ def run(ctx):
     ]
     prelude = prepare_gen(ctx)
     if prelude is None:
-        return
+        # The regenerated model is not available (translator refused the source / Templates.v does not compile):
+        # go on and search for a concrete failing input with the implementation-side oracle, instantiating the hand
+        # models with the DOCUMENTED templates.
+        prelude = FALLBACK_PRELUDE
+        ctx.notes.append('regenerated templates unavailable: cases run against the documented templates')
     finding_probes(ctx, prelude)
     reg = sorted((VERIF / 'regress' / 'C09').glob('*.json'))
     specs = [json.loads(p.read_text()) for p in reg]
@@ -1411,8 +1422,8 @@ def replay(ctx, rep):
     spec = rep.get('spec', rep)
     prelude = prepare_gen(ctx)
     if prelude is None:
-        print('translator / obligations broken:', ctx.broken)
-        return 1
+        print('translator / obligations broken (documented templates used):', ctx.broken)
+        prelude = FALLBACK_PRELUDE
     kept, verdicts, _, skipped = run_specs(ctx, [spec], 'replay', prelude, quiet=True)
     print('spec', json.dumps(spec))
     if not verdicts:
